@@ -93,16 +93,31 @@ def gen_env_args(rng):
     elif rng.random() < 0.05:
         loop = rng.randint(0, max(0, nseg - 1))
     multi = False
-    if rng.random() < 0.1:
+    if rng.random() < 0.18:
+        # multichannel: nested per-channel entries in levels / times / curves
         multi = True
         width = rng.randint(2, 3)
-        for _ in range(rng.randint(1, 2)):
-            k = rng.randrange(nlev)
-            levels[k] = [gen_level(rng, cls)
-                         for _ in range(rng.choice([width, width, 1, 2]))]
-        if isinstance(times, list) and rng.random() < 0.5:
+        where = rng.choice(['levels', 'levels', 'curves', 'curves', 'all',
+                            'all', 'times'])
+        if where in ('levels', 'all'):
+            for _ in range(rng.randint(1, 2)):
+                k = rng.randrange(nlev)
+                levels[k] = [gen_level(rng, cls)
+                             for _ in range(rng.choice([width, width, 1, 2]))]
+        if where in ('times', 'all') or (where == 'levels'
+                                         and rng.random() < 0.3):
+            if not isinstance(times, list):
+                times = [times]
             k = rng.randrange(len(times))
             times[k] = [gen_dur(rng, dyadic) for _ in range(width)]
+        if where in ('curves', 'all'):
+            # a nested entry holds names, numbers or both
+            if not isinstance(curves, list):
+                curves = [curves]
+            for _ in range(rng.randint(1, 2)):
+                k = rng.randrange(len(curves))
+                curves[k] = [gen_curve_item(rng, cls) for _ in range(
+                    rng.choice([width, width, 2]))]
     return dict(levels=levels, times=times, curves=curves,
                 release_node=release, loop_node=loop, cls=cls, dyadic=dyadic,
                 multichannel=multi)
@@ -235,41 +250,70 @@ def gen_ctor_call(rng):
                    release_node=None if not with_release else 'unchecked',
                    loop_node=None)
     else:  # pairs, xyc
-        n = rng.randint(2, 7)
-        xs = set()
+        # Points in the order the caller writes them; documented: "pairs are
+        # sorted regarding their point in time" - by time only, so points on
+        # the same time (vertical rises and drops, several on one time) keep
+        # the order in which they were given.
+        n = rng.randint(2, 8)
         x0 = rng.choice([0, 0, 0.0, 0.5, 1, 0.25])
         dy = rng.random() < 0.6
-        while len(xs) < n:
-            xs.add(x0 + (rng.randint(0, 4096) / 256.0 if dy
-                         else round(rng.uniform(0, 10), 3)))
-        xs.add(x0)
-        xs = sorted(xs)
-        ys = [rng.choice([0, 1, 0.5, round(rng.uniform(-2, 2), 2)]) for _ in xs]
-        order = list(range(len(xs)))
-        if rng.random() < 0.6:
-            rng.shuffle(order)
         cont = ['lin', 'sin', 'wel', 'linear', -4, 2.0, 0]
+        pts = []
+        x = x0
+        while len(pts) < n:
+            if pts and rng.random() < 0.3:
+                pass                        # same time as the previous point
+            elif pts:
+                x = x + (rng.randint(1, 1024) / 256.0 if dy
+                         else round(rng.uniform(0.01, 3), 3))
+            y = rng.choice([0, 1, 0.5, 1.5, round(rng.uniform(-2, 2), 2)])
+            if pts and pts[-1][0] == x and rng.random() < 0.3:
+                y = pts[-1][1]              # same (time, level), other curve
+                c = rng.choice([-4, 2.0]) if isinstance(pts[-1][2], str) \
+                    else rng.choice(['lin', 'sin'])
+            else:
+                c = rng.choice(cont)
+            pts.append([x, y, c])
+        how = rng.random()
+        if how < 0.35:
+            given = list(pts)                         # already ordered in time
+        elif how < 0.7:
+            given = list(pts)
+            rng.shuffle(given)
+        else:
+            # times out of order, points of one time kept together in order
+            groups = {}
+            for q in pts:
+                groups.setdefault(q[0], []).append(q)
+            keys = list(groups)
+            rng.shuffle(keys)
+            given = [q for k in keys for q in groups[k]]
+        order = sorted(given, key=lambda q: q[0])     # stable, by time only
+        xs = [q[0] for q in order]
+        ys = [q[1] for q in order]
         if name == 'pairs':
-            pts = [[xs[i], ys[i]] for i in order]
-            c = rng.choice(['none', 'scalar', 'list'])
+            c = rng.choice(['none', 'scalar', 'list', 'list'])
             if c == 'none':
-                kw = dict(pairs=pts)
+                kw = dict(pairs=[q[:2] for q in given])
                 curves = ['lin'] * len(xs)
             elif c == 'scalar':
                 cv = rng.choice(cont + ['step', 'hold'])
-                kw = dict(pairs=pts, curves=cv)
+                kw = dict(pairs=[q[:2] for q in given], curves=cv)
                 curves = [cv] * len(xs)
             else:
-                cl = [rng.choice(cont) for _ in xs]
-                kw = dict(pairs=pts, curves=cl)
-                curves = [None] * len(xs)
-                for pos, i in enumerate(order):
-                    curves[i] = cl[pos]
+                kw = dict(pairs=[q[:2] for q in given],
+                          curves=[q[2] for q in given])
+                curves = [q[2] for q in order]
         else:
-            cl = [rng.choice(cont) for _ in xs]
-            kw = dict(xyc=[[xs[i], ys[i], cl[i]] for i in order])
-            curves = cl
+            kw = dict(xyc=[list(q) for q in given])
+            curves = [q[2] for q in order]
         exp = dict(levels=ys, times=[b - a for a, b in zip(xs, xs[1:])],
                    curves=curves[:-1], release_node=None, loop_node=None,
-                   xs=xs, dyadic=dy)
+                   xs=xs, dyadic=dy,
+                   equal_times=len(set(xs)) < len(xs),
+                   drop=any(a == b and v < u for a, b, u, v in
+                            zip(xs, xs[1:], ys, ys[1:])),
+                   same_point_mixed_curves=any(
+                       p[:2] == q[:2] and type(p[2]) is not type(q[2])
+                       for p, q in zip(order, order[1:])))
     return name, kw, exp
